@@ -589,7 +589,12 @@ def comments_section(tier, seed, mode='c09'):
 def oracle_eval_equal(value, text):
     import subclasses
     try:
-        got = eval('(' + text + '\n)', {'subclasses': subclasses, 'float': float, 'set': set, 'frozenset': frozenset})
+        scope = {'subclasses': subclasses, 'float': float, 'set': set, 'frozenset': frozenset, 'Geometry': subclasses.Geometry}
+        if '.from' in text or '.maketrans' in text:
+            # callees that are methods of built-in types (dict.fromkeys, ...): evaluated through proxies that give the printed call back
+            for t in (dict, bytes, int, str, float):
+                scope[t.__name__] = subclasses.BuiltinProxy(t)
+        got = eval('(' + text + '\n)', scope)
     except Exception as e:
         return 'does not evaluate (%s)' % type(e).__name__
     return None if same_sub(got, value) else 'evaluates to a different value / type: %s' % (type(got).__name__,)
@@ -616,7 +621,8 @@ def same_sub(a, b):
         return len(a) == len(b) and all(any(same_sub(x, y) for y in b) for x in a)
     import subclasses
     if isinstance(a, subclasses.CallObj):
-        return a.fn is b.fn and same_sub(list(a.args), list(b.args)) and [k for k, _ in a.kwargs] == [k for k, _ in b.kwargs] \
+        # (`dict.fromkeys is dict.fromkeys` is False: built-in methods are bound afresh on every access, but compare equal)
+        return (a.fn is b.fn or (a.fn == b.fn and type(a.fn) is type(len))) and same_sub(list(a.args), list(b.args)) and [k for k, _ in a.kwargs] == [k for k, _ in b.kwargs] \
             and all(same_sub(x, y) for (_, x), (_, y) in zip(a.kwargs, b.kwargs))
     return V.same(a, b)
 
@@ -730,6 +736,43 @@ def subclass_values(rng, n):
     return out
 
 
+def twin_classes_check():
+    """different classes with one module and qualified name (a cell run again in a notebook, a class factory) and different built-in
+    bases, printed one after the other in one interpreter: each is printed as an instance of ITS class - through the printer of its own
+    base - whatever was printed before.  Reference: the text of an instance of a uniquely named class of the same base, renamed."""
+    bad = []
+    samples = {list: [1, 'a'], tuple: (1, 2), dict: {'k': 1}, str: 'abc', bytes: b'xy', int: 7, float: 2.5, set: {1}, frozenset: frozenset([2])}
+
+    def mk(base, name):
+        c = type(name, (base,), {})
+        c.__module__ = 'subclasses'
+        c.__qualname__ = name
+        return c
+    uniq = {b: mk(b, 'Uniq' + b.__name__.capitalize()) for b in samples}
+    with warnings.catch_warnings():
+        warnings.simplefilter('ignore')
+        want = {b: pp.pformat(uniq[b](samples[b])).replace('Uniq' + b.__name__.capitalize(), 'Twin') for b in samples}
+    order = list(samples)
+    for i, b1 in enumerate(order):
+        for b2 in order[i + 1:]:
+            c1, c2 = mk(b1, 'Twin'), mk(b2, 'Twin')
+            seq = [(c1, b1), (c2, b2), (c1, b1), (c2, b2)]
+            for (c, b) in seq:
+                with warnings.catch_warnings(record=True) as w:
+                    warnings.simplefilter('always')
+                    try:
+                        got = pp.pformat(c(samples[b]))
+                    except Exception as e:
+                        got = 'EXC:' + type(e).__name__
+                if got != want[b] or w:
+                    bad.append({'kind': 'subclass-or-call-does-not-reconstruct', 'why': 'two classes named subclasses.Twin (bases %s and %s) printed in turn: the %s instance is printed as %r, expected %r%s' % (
+                        b1.__name__, b2.__name__, b.__name__, got[:120], want[b], ' (with a warning)' if w else ''), 'value': 'Twin(%r)' % (samples[b],), 'settings': 'defaults'})
+                    break
+            if len(bad) >= 3:
+                return bad
+    return bad
+
+
 def subclasses_section(tier, seed):
     rng = random.Random(seed * 13 + 1)
     vals = subclass_values(rng, 1500 if tier == 'quick' else 12000)
@@ -744,7 +787,8 @@ def subclasses_section(tier, seed):
             for v in ({x: 'old'}, {x: 1, y: 2}, [{y: [x]}], {(x, 1): 0, (y, 2): 1}, {pp.comment(x, 'c'): 1, y: 2}, {'k': {x: {y: 0}}}):
                 cases.append((v, sorted_sets))
     tot, nt, mism, fails = run_sub_cases(cases)
-    stats = {'evaluations': tot, 'distinct_nontrivial': nt, 'values': len(vals), 'mismatches': len(mism),
+    fails = list(fails) + twin_classes_check()
+    stats = {'evaluations': tot, 'distinct_nontrivial': nt, 'values': len(vals), 'mismatches': len(mism), 'same_named_class_pairs': 36,
              'samples': [{'value': val_to_sx(vals[0])[:300]}, {'value': val_to_sx(vals[7])[:300]}],
              'rule': 'instances of 36 generated subclasses (9 bases x {plain, __repr__, __str__, both overridden}) + IntEnum, '
                      'alone and nested (list, dict value, dict key, set / frozenset element, tuple inside a key, long dict key line, 1-tuple, call argument) x widths x ribbons x indents; '
@@ -765,7 +809,7 @@ def rand_call(rng, depth=0):
         return v
     args = tuple(arg() for _ in range(nargs))
     kwargs = [(rng.choice(['a', 'b', 'long_keyword_name', 'x1']) + str(i), arg()) for i in range(nkw)]
-    return S.CallObj(rng.choice([S.Ctor, S.some_function]), args, kwargs)
+    return S.CallObj(rng.choice([S.Ctor, S.some_function, S.Ctor, S.some_function, S.Ctor] + S.BUILTIN_METHODS), args, kwargs)
 
 
 def calls_section(tier, seed):
